@@ -152,7 +152,7 @@ func TestC30(t *testing.T) {
 			r.Class("file-clause:differs")
 			for _, d := range diffClasses(text, whole, false, false) {
 				fileClasses[d.Class] = true
-				r.Violation("roundtrip.file."+classCategory(d.Class), d.Class, c.ID, wit(map[string]any{"detail": d.Detail, "first_difference": firstDiffContext(text, whole), "printed": witnessText(whole)}))
+				r.Violation("roundtrip.file."+classCategory(d.Class), c30Sig(text, d), c.ID, wit(map[string]any{"detail": d.Detail, "first_difference": firstDiffContext(text, whole), "printed": witnessText(whole)}))
 			}
 		} else {
 			r.Class("file-clause:exact")
@@ -182,7 +182,7 @@ func TestC30(t *testing.T) {
 				continue
 			}
 			extra++
-			r.Violation("roundtrip.decls."+classCategory(d.Class), d.Class, c.ID, wit(map[string]any{"detail": d.Detail, "first_difference": firstDiffContext(text, concat), "concat": witnessText(concat)}))
+			r.Violation("roundtrip.decls."+classCategory(d.Class), c30Sig(text, d), c.ID, wit(map[string]any{"detail": d.Detail, "first_difference": firstDiffContext(text, concat), "concat": witnessText(concat)}))
 		}
 		if extra == 0 {
 			r.Class("decl-clause:differs-only-as-the-file-clause-does")
@@ -195,4 +195,23 @@ func TestC30(t *testing.T) {
 			}
 		}
 	})
+}
+
+// c30Sig is the signature of a difference site. Whitespace is re-created by the printer (known finding), but on
+// inputs without any comment the unchanged printer keeps every blank line between declarations (not inside option
+// values and compact options): a comment-free input that loses vertical
+// whitespace is marked, so that it is not taken for the recorded regeneration of horizontal whitespace.
+func c30Sig(text string, d diffClass) string {
+	if classCategory(d.Class) != "whitespace" || strings.Contains(text, "//") || strings.Contains(text, "/*") {
+		return d.Class
+	}
+	a, _ := d.Detail["source_whitespace"].(string)
+	b, _ := d.Detail["printed_whitespace"].(string)
+	ctx, _ := d.Detail["context"].(string)
+	nbr, _ := d.Detail["neighbours"].(string)
+	between := strings.HasPrefix(nbr, "`{` |") || strings.HasPrefix(nbr, "`;` |") || strings.HasPrefix(nbr, "`}` |") || strings.HasSuffix(nbr, "| `}`")
+	if na, nb := strings.Count(a, "\n"), strings.Count(b, "\n"); na >= 2 && nb < na && ctx == "declarations" && between {
+		return d.Class + " [comment-free input: blank line lost between declarations]"
+	}
+	return d.Class
 }
